@@ -62,7 +62,9 @@ pub fn judge(rep: &mut Report, solver: Solver, cfg: &Cfg, n: usize, y0: &[f64], 
             return j;
         }
         let gap = *t - prev_t;
-        let allowed = cfg.dt_max * (1.0 + 4.0 * EPS) + 4.0 * EPS * t.abs().max(prev_t.abs());
+        // (times are accumulated sums: their rounding errors are of the size of eps x the largest time of the
+        // path, not of the local time - a start-up that began at |t| = 0.23 leaves 5e-17 in a gap near t = 0.01)
+        let allowed = cfg.dt_max * (1.0 + 4.0 * EPS) + 16.0 * EPS * t.abs().max(prev_t.abs()).max(cfg.t0.abs()).max(cfg.t1.abs());
         rep.max(&format!("{}/gap_over_dtmax", sname), gap / cfg.dt_max);
         if gap > allowed {
             rep.violation(&format!("{}/gap", sname), case(), format!("item {}: gap {:e} from {:e} to {:e} exceeds dt_max {:e}", i, gap, prev_t, t, cfg.dt_max));
